@@ -139,11 +139,18 @@ def _sign_survives(ctx: _FixedCtx) -> bool:
 
     Dropping `enable_neg_zero` changes exactly one thing -- the sign of a zero
     *result* -- so the rewrite holds unless the format can reach a zero whose
-    sign the operand does not supply.  There are two such routes.
+    sign the operand does not supply.  There are three such routes.
     """
     # a wrapping overflow lands by ordinal over the signed range, so a negative
     # operand can come back as `+0`
     if isinstance(ctx, MPBFixedContext) and ctx.overflow is OverflowMode.WRAP:
+        return False
+    # a negative overflow that lands on the end of the range lands on `+0`
+    # where the format represents nothing below zero
+    if isinstance(ctx, MPBFixedContext) and ctx.neg_maxval.is_zero() and (
+        ctx.overflow is OverflowMode.SATURATE
+        or (ctx.overflow is OverflowMode.OVERFLOW and not ctx._overflow_to_infinity(True))
+    ):
         return False
     # a special substituted by a zero would take the sign of the *special* that
     # was rounded, which says nothing about the sign of that zero.  A substitute
